@@ -317,6 +317,8 @@ def run(repo, rep):
     _log_rule(repo, rep, 'C03', 'C03.Z2')
     from ..api_pitfalls import truth_rule as _truth_rule
     _truth_rule(repo, rep, 'C03', 'C03.Z4')
+    from ..api_pitfalls import attribute_rule as _attribute_rule
+    _attribute_rule(repo, rep, 'C03', 'C03.Z5')
     model = FsmModel(repo)
     pm = ProviderModel(repo, model)
     off, size, hdr, big = header_layout(repo)
